@@ -4,7 +4,7 @@ from suites import gens, system, tower, timing, parsing, conc, glue
 
 def c01_suites(tier):
     return [gens.PermuteSuite(), gens.StartRowSuite(), gens.GenHistorySuite(), gens.MethodRowsSuite(),
-            system.GateSuite(), system.StartStopSuite()]
+            system.GateSuite(), system.StartStopSuite(), system.ServerSuite()]
 
 
 def c02_suites(tier):
